@@ -156,7 +156,7 @@ def run_case(case):
                 nth = rng.randint(1, 50)
                 V = _valid_set(min(nr, nv), min(nz, nv), P)
                 c.count = 0
-                c.budget = None
+                c.budget = 50 * (P + nr + nz + nv) + 1000
                 try:
                     got = pg.compute_2d_process_grid([nr, nth, nz, nv], P)
                     ok = tuple(int(x) for x in got) in V
@@ -165,6 +165,9 @@ def run_case(case):
                         return result(VIOL, cls=sorted(classes), events=events, n_eval=n_eval, key="C20:npts-form-invalid-grid",
                                       what="compute_2d_process_grid(%r,%d) returned %r; valid: %r" % ([nr, nth, nz, nv], P, got, V[:6]),
                                       witness={"npts": [nr, nth, nz, nv], "P": P})
+                except BudgetExceeded as e:
+                    return result(VIOL, cls=sorted(classes), events=events, n_eval=n_eval, key="C20:no-termination-within-budget",
+                                  what="compute_2d_process_grid(%r,%d): %s" % ([nr, nth, nz, nv], P, e), witness={"npts": [nr, nth, nz, nv], "P": P})
                 except RuntimeError:
                     events["npts_form_error"] = events.get("npts_form_error", 0) + 1
                     if V:
@@ -172,10 +175,14 @@ def run_case(case):
                                       what="compute_2d_process_grid(%r,%d) raised although %r valid" % ([nr, nth, nz, nv], P, V[:4]),
                                       witness={"npts": [nr, nth, nz, nv], "P": P})
         return result(HELD, cls=sorted(classes), events=events, n_eval=n_eval)
-    if case["kind"] == "layouts":
-        return _layouts_case(case, pg)
-    if case["kind"] == "setup":
-        return _setup_case(case, pg)
+    if case["kind"] in ("layouts", "setup"):
+        # a generous budget of executed lines of the search for the whole case: a search that does not terminate ends the case
+        # as a violation instead of hanging until the watchdog
+        try:
+            with LineCounter(f, budget=3000000):
+                return _layouts_case(case, pg) if case["kind"] == "layouts" else _setup_case(case, pg)
+        except BudgetExceeded as e:
+            return result(VIOL, cls=["%s/no-termination" % case["kind"]], events=events, key="C20:no-termination-within-budget", what="process-grid search inside the %s workload: %s" % (case["kind"], e), witness={"case": case})
     return result(INCO, what="unknown case kind")
 
 
@@ -267,10 +274,29 @@ def _setup_case(case, pg):
         cfile = os.path.join(tmp, "c.json")
         dr.write_constants(cfile, npts, dt=2)
 
+        restart = bool(case["seed"] % 2)      # odd seeds: the restart entry point on a folder written beforehand (serially)
+        folder = os.path.join(tmp, "sim")
+        if restart:
+            from vlib import simh5
+            simh5.install()
+            os.mkdir(folder)
+            shutil.copy(cfile, os.path.join(folder, "initParams.json"))
+
+            def writer(rank):
+                g0, _c, _t = setups.setupCylindricalGrid('v_parallel', constantFile=cfile, comm=MPI.COMM_WORLD)
+                g0.writeH5Dataset(folder, 4)
+                return True
+            w0 = MPI.run_world(1, writer, timeout=300)
+            if w0.first_error() is not None:
+                return result(INCO, what="could not write the checkpoint for the restart variant: %r" % (w0.first_error()[1],))
+
         def prog(rank):
             comm = MPI.COMM_WORLD
             kw = dict(plotThread=True, drawRank=draw) if plot else {}
-            grid, c, t = setups.setupCylindricalGrid('v_parallel', constantFile=cfile, comm=comm, allocateSaveMemory=True, **kw)
+            if restart:
+                grid, c, t = setups.setupFromFile(folder, comm=comm, allocateSaveMemory=True, layout='v_parallel', **kw)
+            else:
+                grid, c, t = setups.setupCylindricalGrid('v_parallel', constantFile=cfile, comm=comm, allocateSaveMemory=True, **kw)
             lm = grid._layout_manager
             out = {"nprocs": [int(x) for x in lm.nProcs], "empty": grid.getAllData().size == 0, "shapes": {}}
             for lay_ in ('flux_surface', 'poloidal', 'v_parallel'):
@@ -283,13 +309,13 @@ def _setup_case(case, pg):
     ev = dict(w.events)
     ev["layout_worlds"] = 1
     ev["setup_worlds"] = 1
-    cls = ["setup/P%d/%s" % (P, "plot-rank" if plot else "all-workers")]
+    cls = ["setup/P%d/%s/%s" % (P, "plot-rank" if plot else "all-workers", "restart" if restart else "fresh")]
     wit = {"case": case, "npts": npts, "draw": draw}
     err = w.first_error()
     if err is not None:
         wit["traceback"] = (w.tracebacks[err[0]] or "")[-2500:]
         return result(VIOL, cls=cls, events=ev, key="C20:setup-exception:%s" % type(err[1]).__name__,
-                      what="setupCylindricalGrid(plotThread=%r, drawRank=%d) on %d ranks, npts=%r: rank %d raised %r" % (plot, draw, P, npts, err[0], err[1]), witness=wit)
+                      what="%s(plotThread=%r, drawRank=%d) on %d ranks, npts=%r: rank %d raised %r" % ("setupFromFile" if restart else "setupCylindricalGrid", plot, draw, P, npts, err[0], err[1]), witness=wit)
     for r, o in enumerate(w.results):
         share = 1 if (plot and r == draw) else nwork
         if int(np.prod(o["nprocs"])) != share:
